@@ -293,6 +293,137 @@ func TestC18(t *testing.T) {
 			r.Sample("valid_history", 1, map[string]any{"ttl": int64(ttl), "gc_interval": int64(gcInt), "auto": auto, "ops": ops[:min(len(ops), 30)]})
 		}
 	}
+	// (R) ValidReplayer, Put-triggered collections only, with Puts that are rejected (no topics, a
+	// preset ID in automatic mode, no ID in manual mode) between the valid ones. Whether a rejected
+	// Put runs the collection that is due is left open; what is not open is that a collection is
+	// owed by the first accepted Put at least GCInterval after the last collection that ran. The
+	// model keeps the set of instants the implementation may count from: a rejected Put that was
+	// due adds "now" to it only if every expired message was in fact unreachable afterwards (it
+	// collected, or there was nothing to tell); a collection is demanded only when it is due from
+	// every instant of the set.
+	nR := r.N(800, 40000)
+	for i := 0; i < nR; i++ {
+		if !r.Mine("R", i) {
+			continue
+		}
+		key := fw.Key("R", i)
+		rng := r.Rand("R", i)
+		ttl := []time.Duration{12, 100, 1000}[rng.IntN(3)]
+		auto := rng.IntN(2) == 0
+		rp, _ := sse.NewValidReplayer(ttl, auto)
+		now := c09Epoch
+		rp.Now = func() time.Time { return now }
+		gcInt := []time.Duration{ttl / 4, ttl / 2, ttl, 2 * ttl, 1}[rng.IntN(5)]
+		rp.GCInterval = gcInt
+		nops := 8 + rng.IntN(50)
+		r.Begin(key, fmt.Sprintf("valid+rejected ttl=%d gc=%d auto=%v ops=%d", ttl, gcInt, auto, nops))
+		var probes []c18Probe
+		var ops []string
+		var from []time.Time // instants the implementation may be counting the interval from
+		bad := false
+		expiredAlive := func() (string, bool) {
+			c18GC()
+			r.Count("gc_probes", 1)
+			for _, p := range probes {
+				if !p.putTime.Add(ttl).After(now) && c18Alive(p.wp) {
+					return p.tok, true
+				}
+			}
+			return "", false
+		}
+		dueFromAll := func() bool {
+			for _, f := range from {
+				if now.Sub(f) < gcInt {
+					return false
+				}
+			}
+			return len(from) > 0
+		}
+		advance := func(accepted bool, collected bool) {
+			var next []time.Time
+			add := func(t time.Time) {
+				for _, x := range next {
+					if x.Equal(t) {
+						return
+					}
+				}
+				next = append(next, t)
+			}
+			for _, f := range from {
+				if now.Sub(f) >= gcInt {
+					if accepted || collected {
+						add(now)
+					}
+					if !accepted {
+						add(f)
+					}
+				} else {
+					add(f)
+				}
+			}
+			from = next
+		}
+		for k := 0; k < nops && !bad; k++ {
+			switch x := rng.IntN(10); {
+			case x < 4 || len(from) == 0:
+				tok := "m" + strconv.Itoa(len(probes))
+				wp, err := c18Put(rp, tok, auto, []string{"a"})
+				if err != nil {
+					r.Violation(key, []string{"valid_put_rejected"}, nil, "C18: Put failed: %v", err)
+					bad = true
+					break
+				}
+				probes = append(probes, c18Probe{wp: wp, tok: tok, putTime: now})
+				ops = append(ops, fmt.Sprintf("Put(%s)@%d", tok, now.Sub(c09Epoch)))
+				if len(from) == 0 {
+					from = []time.Time{now}
+					break
+				}
+				if dueFromAll() {
+					r.Count("put_triggered_after_rejected", 1)
+					if tok, alive := expiredAlive(); alive {
+						r.Violation(key, []string{"expired_message_reachable", "valid", "put_triggered_gc_after_rejected_put"}, map[string]any{"ttl": int64(ttl), "gc_interval": int64(gcInt), "auto": auto, "ops": ops, "message": tok, "now": int64(now.Sub(c09Epoch))},
+							"C18: ValidReplayer keeps the expired %s reachable at %d although an accepted Put came at least GCInterval (%d) after the last collection that ran", tok, now.Sub(c09Epoch), gcInt)
+						bad = true
+						break
+					}
+				}
+				advance(true, true)
+			case x < 7:
+				m := &sse.Message{}
+				m.AppendData("rejected")
+				topics := []string{"a"}
+				kind := rng.IntN(3)
+				switch {
+				case kind == 0:
+					topics = nil
+					if !auto {
+						m.ID = sse.ID("id-rejected")
+					}
+				case auto:
+					m.ID = sse.ID("preset")
+				}
+				if got, err := rp.Put(m, topics); err == nil {
+					r.Violation(key, []string{"invalid_put_accepted"}, map[string]any{"ops": ops}, "C18: a Put that must be rejected (kind %d, auto=%v) returned (%v, nil)", kind, auto, got != nil)
+					bad = true
+					break
+				}
+				ops = append(ops, fmt.Sprintf("RejectedPut(%d)@%d", kind, now.Sub(c09Epoch)))
+				r.Count("rejected_puts", 1)
+				_, alive := expiredAlive()
+				advance(false, !alive)
+			default:
+				d := []time.Duration{1, ttl / 4, ttl / 2, ttl - 1, ttl, ttl + 1, 3 * ttl}[rng.IntN(7)]
+				now = now.Add(d)
+				ops = append(ops, fmt.Sprintf("Advance(%d)", d))
+			}
+		}
+		r.Eval(fw.Hash("R", fmt.Sprint(ttl, gcInt, auto), strings.Join(ops, ";")), len(probes) > 2)
+		runtime.KeepAlive(rp)
+		if i < 8 {
+			r.Sample("valid_history_with_rejected_puts", 1, map[string]any{"ttl": int64(ttl), "gc_interval": int64(gcInt), "auto": auto, "ops": ops[:min(len(ops), 30)]})
+		}
+	}
 	// (C) thousands of unexpired messages at once (the ring passes 4096 and 8192 slots), then a
 	// partial expiry: everything collected must be unreachable, everything else alive
 	nC := r.N(3, 40)
